@@ -1038,9 +1038,9 @@ func (g *gen) next() op {
 			if rng.Chance(1, 15) {
 				nm = badNames[rng.Intn(len(badNames))]
 			}
-			perm := uint32(rng.Pick(0644, 0666, 0777, 0600))
+			perm := uint32(rng.Pick(0644, 0666, 0777, 0600, 0, 1, 0x7FFFFFFF))
 			if rng.Chance(2, 5) {
-				perm = p9p.DMDIR | uint32(rng.Pick(0755, 0777, 0700))
+				perm = p9p.DMDIR | uint32(rng.Pick(0755, 0777, 0700, 0, 0x7FFFFFFF, 0x7FFFFFFE))
 			}
 			mode := uint8(rng.Pick(0, 1, 2, 2, 2, 3, 0x11, 0x42))
 			return op{kind: "create", s: s, fid: fid, name: nm, perm: perm, mode: mode}
@@ -1112,9 +1112,9 @@ func (g *gen) next() op {
 				if f.ent().dir {
 					keep = p9p.DMDIR
 				}
-				o.wmode = keep | uint32(rng.Pick(0600, 0644, 0755, 0))
+				o.wmode = keep | uint32(rng.Pick(0600, 0644, 0755, 0, 0x7FFFFFFF, 0x7FFFFFFE))
 				if rng.Chance(1, 4) {
-					o.wmode ^= p9p.DMDIR // try to flip the directory bit
+					o.wmode ^= p9p.DMDIR // try to flip the directory bit (0xFFFFFFFF = "don't touch", 0xFFFFFFFE is a mode)
 				}
 			}
 			if rng.Chance(1, 4) {
@@ -1126,9 +1126,16 @@ func (g *gen) next() op {
 			if rng.Chance(1, 8) {
 				o.wname = "zz"
 			}
-			if rng.Chance(1, 2) && !f.ent().dir {
+			if rng.Chance(1, 2) && (!f.ent().dir || rng.Chance(1, 4)) {
+				// the same boundary set as the offsets: a Twstat length is a full uint64
+				// (len-1 of an empty file is 2^64-1 = "don't touch")
 				l := len(f.ent().data)
-				o.wlen = uint64(int64(rng.Pick(0, l-1, l, l+1, l/2)))
+				switch rng.Intn(3) {
+				case 0:
+					o.wlen = uint64Specials[rng.Intn(len(uint64Specials))]
+				default:
+					o.wlen = uint64(int64(rng.Pick(0, 1, l-1, l, l+1, l/2)))
+				}
 			}
 			return o
 		case w < 95: // remove
@@ -1152,7 +1159,7 @@ func (g *gen) next() op {
 
 func runSequential(r *rep.Report) {
 	rng := prng.New(r.Seed)
-	r.Rule = "each case is one sequence of 8..60 operations (attach/walk incl. '..' and through removed directories/create file or directory/open/read/write/stat/wstat/remove/clunk, plus junk fids and names) over 1..3 sessions sharing one fresh ramfs server, then clunk of every fid and the nref/links table; offsets from {0,1,len-1,len,len+1,2^31,2^32,2^63-1,2^63,2^63+1,2^64-2,2^64-1,random}; counts 0..200. Non-trivial: at least one successful create and one successful read or write. Distinct by canonical case text."
+	r.Rule = "each case is one sequence of 8..60 operations (attach/walk incl. '..' and through removed directories/create file or directory/open/read/write/stat/wstat/remove/clunk, plus junk fids and names) over 1..3 sessions sharing one fresh ramfs server, then clunk of every fid and the nref/links table; offsets and wstat lengths from {0,1,len-1,len,len+1,2^31,2^32,2^63-1,2^63,2^63+1,2^64-2,2^64-1,random}; create perm / wstat mode incl. 0, 2^31-1, 2^31, 2^32-2, 2^32-1; counts 0..200. Non-trivial: at least one successful create and one successful read or write. Distinct by canonical case text."
 	nseq := r.N(600, 20000)
 	panics := 0
 	for i := 0; i < nseq; i++ {
